@@ -270,6 +270,17 @@ def overlay(c, seed):
     if o["mode"] == "fix" and o["strategy"] == "override":
         if r < 0.45:
             sc["layout"] = rng.choice(["profile-mgmt", "profile-mgmt-active", "profile-props", "profile-mgmt"])
+        elif r < 0.6 and sc["eco"] == "Maven":
+            # a vulnerable package that is not a direct requirement is managed (at its lowest version) in an
+            # activeByDefault profile whose dependencyManagement takes the version from a property of that profile
+            direct = {m["name"] for m in sc["manifest"]}
+            cand = sorted({v["pkg"] for v in sc["vulns"]} - direct)
+            byname = {u["name"]: u for u in sc["universe"]}
+            cand = [p for p in cand if p in byname and byname[p]["versions"]]
+            if cand:
+                p = rng.choice(cand)
+                sc["manifest"].append({"name": p, "req": byname[p]["versions"][0]["v"], "group": "mgmt"})
+                sc["layout"] = "profile-mgmt-prop"
         if rng.random() < 0.3 and o["maxUpgrades"] == 1:
             o["maxUpgrades"] = rng.choice([0, 2])
     elif o["mode"] == "fix" and o["strategy"] == "relax":
